@@ -410,6 +410,22 @@ def BB():
         return None
 
 
+def CC():
+    """renaming a space keeps values computed through uncached cells of its tree"""
+    m = _reset()
+    B_ = m.new_space("B")
+    Ch = B_.new_space("Ch")
+    Gc = Ch.new_space("Gc")
+    Gc.new_cells("d0", formula="def d0(x):\n    return x", is_cached=False)
+    B_.new_cells("c5", formula="def c5(x):\n    return Ch.Gc.d0(x) + 10")
+    B_.c5(1)
+    Ch.rename("Ch2")
+    try:
+        return "B.c5(1) still returns %r after renaming B.Ch" % B_.c5(1)
+    except Exception:     # noqa
+        return None
+
+
 # ------------------------------------------------------------------ C15
 def M():
     """export: comprehension following a nested class scope"""
@@ -527,7 +543,7 @@ def R():
     return None
 
 
-ALL = [A, F, G, U, I, J, K, L, T, Z, B, D, E, a, b, c, H, W, X, V, Y, AA, BB, M, N, O, P, Q, R]
+ALL = [A, F, G, U, I, J, K, L, T, Z, B, D, E, a, b, c, H, W, X, V, Y, AA, BB, CC, M, N, O, P, Q, R]
 
 
 if __name__ == "__main__":
